@@ -14,6 +14,111 @@ from .cfg import strip_casts, pretty, const_int, ABORT_MACROS, walk_stmt
 from .sym import Converter, Env, S
 
 
+_dot_cache = {}
+
+
+def dotsym(a, b):
+    """Scalar symbol standing for the dot product of two basis vectors."""
+    a, b = sorted((a, b))
+    k = (a, b)
+    if k not in _dot_cache:
+        _dot_cache[k] = sp.Symbol("<%s.%s>" % (a, b), real=True)
+    return _dot_cache[k]
+
+
+class AVec:
+    """Abstract 3-vector: a linear combination of named basis vectors with scalar (sympy)
+    coefficients. Dot products of basis vectors are scalar symbols, so identities proved with
+    AVecs hold for vectors of any components (the basis vectors are treated as independent)."""
+
+    def __init__(self, coeffs=None, partial=None):
+        self.c = {k: v for k, v in (coeffs or {}).items() if v != 0}
+        self.partial = partial      # set of components zeroed one by one (pflux[i] = 0.)
+
+    @staticmethod
+    def basis(name):
+        return AVec({name: sp.Integer(1)})
+
+    def __add__(self, o):
+        if isinstance(o, AVec):
+            r = dict(self.c)
+            for k, v in o.c.items():
+                r[k] = r.get(k, 0) + v
+            return AVec(r)
+        if o == 0:
+            return self
+        return NotImplemented
+    __radd__ = __add__
+
+    def __neg__(self):
+        return AVec({k: -v for k, v in self.c.items()})
+
+    def __sub__(self, o):
+        if isinstance(o, AVec):
+            return self + (-o)
+        if o == 0:
+            return self
+        return NotImplemented
+
+    def __rsub__(self, o):
+        return (-self) + o
+
+    def __mul__(self, o):
+        if isinstance(o, AVec):
+            raise AnalysisBroken("product of two vectors")
+        o = sp.sympify(o)
+        return AVec({k: v * o for k, v in self.c.items()})
+    __rmul__ = __mul__
+
+    def __truediv__(self, o):
+        o = sp.sympify(o)
+        return AVec({k: v / o for k, v in self.c.items()})
+
+    def dot(self, o):
+        r = sp.Integer(0)
+        for k1, v1 in self.c.items():
+            for k2, v2 in o.c.items():
+                r += v1 * v2 * dotsym(k1, k2)
+        return r
+
+    def xreplace(self, m):
+        return AVec({k: (v.xreplace(m) if hasattr(v, "xreplace") else v) for k, v in self.c.items()})
+
+    def remap(self, vm):
+        """Apply a linear map of the basis (name -> AVec); scalars inside coefficients that are dot
+        symbols are remapped with remap_scalar by the caller."""
+        r = AVec()
+        for k, v in self.c.items():
+            r = r + (vm[k] if k in vm else AVec.basis(k)) * v
+        return r
+
+    def names(self):
+        return set(self.c)
+
+    @property
+    def free_symbols(self):
+        s = set()
+        for v in self.c.values():
+            s |= v.free_symbols
+        return s
+
+    def __repr__(self):
+        return "AVec(%s)" % ", ".join("%s*%s" % (v, k) for k, v in sorted(self.c.items()))
+
+
+def remap_scalar(e, vm):
+    """Rewrite the dot symbols of a scalar expression under a linear map of the basis vectors."""
+    if not hasattr(e, "free_symbols"):
+        return e
+    reps = {}
+    for (a, b), sym in list(_dot_cache.items()):
+        if sym in e.free_symbols:
+            va = vm[a] if a in vm else AVec.basis(a)
+            vb = vm[b] if b in vm else AVec.basis(b)
+            reps[sym] = va.dot(vb)
+    return e.xreplace(reps) if reps else e
+
+
 class Leaf:
     def __init__(self, conds, env, ret=None, aborted=False):
         self.conds = conds      # list of (sympy boolean, polarity, ast)
@@ -27,7 +132,9 @@ class Leaf:
 
 class SymExec:
     def __init__(self, unit, conv=None, inline=(), cls_consts=None, vec_class="CoordinateVector",
-                 max_leaves=4096, opaque=None):
+                 max_leaves=4096, opaque=None, facts=None):
+        # facts: list of (sympy relational, bool) taken as preconditions when deciding branches
+        self.facts = list(facts or [])
         # opaque: dict callee qname -> name of the symbol standing for its return value; the
         # callee's non-const reference arguments receive fresh symbols named after the argument
         self.opaque_calls = dict(opaque or {})
@@ -49,7 +156,7 @@ class SymExec:
 
     # ------------------------------------------------------------------ vectors
     def vec_symbols(self, name):
-        return sp.Matrix([self.conv.sym("%s_%d" % (name, i)) for i in range(3)])
+        return AVec.basis(name)
 
     def _is_vec_type(self, t):
         return (t or "").replace("const ", "").strip().rstrip("&").strip().startswith(self.vec_class + "<")
@@ -62,13 +169,13 @@ class SymExec:
         args = e["a"]
         if n == "dot_product" and len(args) == 2:
             a, b = conv.conv(args[0], env), conv.conv(args[1], env)
-            return (a.T * b)[0, 0]
+            return a.dot(b)
         if n == "norm2" and e.get("obj") is not None and not args:
             a = conv.conv(e["obj"], env)
-            return (a.T * a)[0, 0]
+            return a.dot(a)
         if n == "norm" and e.get("obj") is not None and not args:
             a = conv.conv(e["obj"], env)
-            return sp.sqrt((a.T * a)[0, 0])
+            return sp.sqrt(a.dot(a))
         if n == "isinf" and len(args) == 1:
             return sp.Eq(sp.Function("isinf")(conv.conv(args[0], env)), 1)
         if n == "isnan" and len(args) == 1:
@@ -76,12 +183,13 @@ class SymExec:
         if e.get("op") == "[]" and e.get("obj") is not None and len(args) == 1:
             i = const_int(args[0])
             base = conv.conv(e["obj"], env)
-            if isinstance(base, sp.MatrixBase) and i is not None:
-                return base[i, 0]
+            if isinstance(base, AVec):
+                raise AnalysisBroken("component %s of a vector is read (line %s): not representable in "
+                                     "the component-free vector algebra" % (i, e.get("l")))
         if n in ("x", "y", "z") and e.get("obj") is not None and not args:
             base = conv.conv(e["obj"], env)
-            if isinstance(base, sp.MatrixBase):
-                return base["xyz".index(n), 0]
+            if isinstance(base, AVec):
+                raise AnalysisBroken("component of a vector is read (line %s)" % e.get("l"))
         return None
 
     # ------------------------------------------------------------------ driver
@@ -123,6 +231,11 @@ class SymExec:
             for l in live:
                 self._cur = l
                 c = self._conv(s["c"], l.env, fn)
+                for fc, fv in self.facts:
+                    if c == fc:
+                        c = sp.true if fv else sp.false
+                    elif hasattr(c, "xreplace") and fc in getattr(c, "atoms", lambda *a: set())(type(fc)):
+                        c = c.xreplace({fc: sp.true if fv else sp.false})
                 if c is sp.true:
                     out += self._block([l], s["th"], fn)
                     continue
@@ -136,6 +249,8 @@ class SymExec:
                 lf = Leaf(l.conds + [(c, False, s["c"])], l.env.copy())
                 lt.callvals = dict(getattr(l, "callvals", {}))
                 lf.callvals = dict(getattr(l, "callvals", {}))
+                lt.opaque = list(getattr(l, "opaque", []))
+                lf.opaque = list(getattr(l, "opaque", []))
                 out += self._block([lt], s["th"], fn)
                 if s.get("el"):
                     out += self._block([lf], s["el"], fn)
@@ -210,15 +325,18 @@ class SymExec:
         ie = strip_casts(init)
         if ie.get("k") == "Ctor" and self._is_vec_type(ie.get("t")):
             if not ie["a"]:
-                leaf.env.vals[key] = sp.zeros(3, 1)
+                leaf.env.vals[key] = AVec()
                 return [leaf]
             if len(ie["a"]) == 1:
+                self._cur = leaf
                 v = self._conv(ie["a"][0], leaf.env, fn)
-                leaf.env.vals[key] = v if isinstance(v, sp.MatrixBase) else sp.Matrix([v, v, v])
-                return [leaf]
-            if len(ie["a"]) == 3:
-                leaf.env.vals[key] = sp.Matrix([self._conv(a, leaf.env, fn) for a in ie["a"]])
-                return [leaf]
+                if isinstance(v, AVec):
+                    leaf.env.vals[key] = v
+                    return [leaf]
+                if v == 0:
+                    leaf.env.vals[key] = AVec()
+                    return [leaf]
+            raise AnalysisBroken("%s: vector built from components (line %s)" % (fn["full"], ie.get("l")))
         outs = []
         for l2 in self._fork_nested([leaf], init, fn):
             self._cur = l2
@@ -266,16 +384,16 @@ class SymExec:
             base, idx = t["a"], const_int(t["i"])
         if base is not None:
             bkey = self.conv.key(base)
-            if bkey in leaf.env.vals and isinstance(leaf.env.vals[bkey], sp.MatrixBase) and idx is not None:
-                m = sp.Matrix(leaf.env.vals[bkey])
-                m[idx, 0] = self._apply(op, m[idx, 0], rhs)
-                leaf.env.vals[bkey] = m
+            cur = leaf.env.vals.get(bkey)
+            if bkey is not None and idx is not None and op == "=" and rhs == 0 and \
+                    (cur is None or isinstance(cur, AVec)):
+                # component-wise zeroing v[0] = v[1] = v[2] = 0: complete only with all three
+                done = set(cur.partial) if (cur is not None and cur.partial) else set()
+                done.add(idx)
+                leaf.env.vals[bkey] = AVec({}, partial=done)
                 return
-            if bkey is not None and idx is not None and bkey not in leaf.env.vals and op == "=":
-                m = self.vec_symbols(self.conv.name_of_key(bkey) + "_in")
-                m[idx, 0] = rhs
-                leaf.env.vals[bkey] = m
-                return
+            raise AnalysisBroken("%s: component assignment %s (line %s) is not representable" %
+                                 (fn["full"], pretty(t), t.get("l")))
         key = self.conv.key(t)
         if key is None:
             raise AnalysisBroken("%s: cannot name assignment target %s (line %s)" %
@@ -310,13 +428,35 @@ class SymExec:
                 raise AnalysisBroken("cannot resolve opaque callee %s" % call["fn"])
             nl = Leaf(list(leaf.conds), leaf.env.copy(), None, leaf.aborted)
             nl.callvals = dict(getattr(leaf, "callvals", {}))
+            nl.opaque = list(getattr(leaf, "opaque", [])) + [call["fn"]]
+            spec = self.opaque_calls[call["fn"]]
+            invals = []
+            self._cur = leaf
+            for p, a in zip(cands[0]["params"], call["a"]):
+                if not (p["t"].rstrip().endswith("&") and not p["t"].startswith("const")):
+                    v = self._conv(a, leaf.env, fn)
+                    if not isinstance(v, AVec) and not isinstance(v, (sp.logic.boolalg.BooleanFunction,
+                                                                     sp.logic.boolalg.BooleanAtom,
+                                                                     sp.core.relational.Relational)) \
+                            and getattr(v, "is_Boolean", False) is not True or isinstance(v, sp.Symbol) and \
+                            (v.is_real or v.is_positive):
+                        invals.append(v)
+            k = 0
             for p, a in zip(cands[0]["params"], call["a"]):
                 if p["t"].rstrip().endswith("&") and not p["t"].startswith("const"):
                     ak = self.conv.key(a)
-                    aa = strip_casts(a)
-                    nm = aa.get("n") or self.conv.name_of_key(ak)
-                    nl.env.vals[ak] = self.conv.sym(nm)
-            yield nl, self.conv.sym(self.opaque_calls[call["fn"]])
+                    nm = spec["outs"][k] if k < len(spec.get("outs", [])) else "out%d" % k
+                    k += 1
+                    if self._is_vec_type(p["t"]):
+                        nl.env.vals[ak] = self.vec_symbols(nm)
+                    elif spec.get("functions"):
+                        nl.env.vals[ak] = sp.Function(nm, real=True)(*invals)
+                    else:
+                        nl.env.vals[ak] = self.conv.sym(nm)
+            if spec.get("functions"):
+                yield nl, sp.Function(spec["ret"], real=True)(*invals)
+            else:
+                yield nl, self.conv.sym(spec["ret"])
             return
         cands = self.unit.funcs(call["fn"])
         cands = [c for c in cands if len(c["params"]) == len(call["a"])]
@@ -346,6 +486,7 @@ class SymExec:
         for sl in sub:
             nl = Leaf(list(sl.conds), leaf.env.copy(), None, sl.aborted)
             nl.callvals = dict(getattr(leaf, "callvals", {}))
+            nl.opaque = list(getattr(leaf, "opaque", [])) + list(getattr(sl, "opaque", []))
             for pk, ak in refs:
                 if pk in sl.env.vals:
                     nl.env.vals[ak] = sl.env.vals[pk]
